@@ -74,6 +74,9 @@ func TestVerifC13Model(t *testing.T) {
 		if w.txs >= 2 {
 			c.Class("nt:>=2-txs")
 		}
+		if w.mixedBoundaries == 3 {
+			c.Class("hot-slot-rewritten-across-mixed-boundaries")
+		}
 		if w.midTxCopy {
 			c.Class("copy-mid-tx")
 		}
